@@ -288,6 +288,11 @@ func prepDataSV(a interface{}, b Tensor, reuse Tensor) (dataA, dataB, dataReuse 
 }
 
 func prepDataUnary(a Tensor, reuse Tensor) (dataA, dataReuse *storage.Header, ait, rit Iterator, useIter bool, err error) {
+	if reuse != nil {
+		// the destination first receives the elements of a
+		a = operandFor(a, reuse, true)
+	}
+
 	// get data
 	dataA = a.hdr()
 	if reuse != nil {
